@@ -703,6 +703,25 @@ def _source_faithful(ctx, visitor, rel):
                                  f"list the same item twice (two identical step expressions are two edges), the "
                                  f"specification no longer says what the file says"),
                             file=rel, line=g.lineno, props=PROPS))
+        # repeated child collected into a set / sorted: order and repeats of the source are lost
+        for n in own_nodes(f.node):
+            comp = None
+            if isinstance(n, ast.SetComp):
+                comp = n
+            elif isinstance(n, ast.Call) and isinstance(n.func, ast.Name) and n.func.id in ('set', 'frozenset', 'sorted') and n.args \
+                    and isinstance(n.args[0], (ast.GeneratorExp, ast.ListComp, ast.SetComp)):
+                comp = n.args[0]
+            if comp is None:
+                continue
+            it = comp.generators[0].iter
+            if isinstance(it, ast.Call) and isinstance(it.func, ast.Attribute) and isinstance(it.func.value, ast.Name) \
+                    and it.func.value.id == ctxn and not it.args:
+                out.append(Inst(
+                    RULE, f.short, f"(l) {f.name[5:].lower()}: every '{it.func.attr}' of the source is taken over", 'violation',
+                    msg=(f"'{stmt_text(n, 60)}' collects the '{it.func.attr}' children through a set / sorted(): the order they "
+                         f"are written in and repeated entries are part of what the source says, the specification no "
+                         f"longer shows them"),
+                    file=rel, line=n.lineno, props=PROPS))
         # token text overwritten
         from_text = {}
         for n in own_nodes(f.node):
